@@ -238,12 +238,41 @@ def generic(run, h, rng, proc):
             if not np.allclose(flat, closed / C, rtol=1e-9):
                 run.violation(f"proportional:{label}", f"{label} with {op}: components {A}s, {B}s, {C}s give {flat.tolist()[:3]}..., closed form {closed / C}", rep)
             run.case(("gen", t, label))
-        # diffuse field against its definition through the PSD path is C17's; FFT length never truncates
-        st = mkst("trad", "geometric_mean")
-        proc([rec], st)
-        long_rec = h.SeismicRecording3C(ts(np.r_[x[0]] * 1, dt), ts(x[1], dt), ts(x[2], dt))
-        if st.fft_settings["n"] < n:
-            run.violation("ratio:truncated", f"stored FFT length {st.fft_settings['n']} is shorter than the window ({n} samples)", dict(kind="generic", n=n))
+        # ---- FFT length: zero padding, never truncation (Session.tla: NeverTruncates) -------------------------
+        # (a) a user-supplied n shorter than the window, (b) a settings object that was used on a shorter window
+        #     before: the curve must equal the one obtained with fresh default settings (n = next power of two >= window)
+        nlong = int(rng.choice([33001, 40000]))
+        longx = [np.cumsum(rng.normal(size=nlong)) * 0.1 + rng.normal(size=nlong) for _ in range(3)]
+        long_rec = h.SeismicRecording3C(ts(longx[0], dt), ts(longx[1], dt), ts(longx[2], dt))
+        for kind, method in (("trad", NAMES[t % len(NAMES)]), ("sa", None), ("df", None)):
+            label = method or kind
+            fresh_long = np.atleast_2d(proc([long_rec], mkst(kind, method)).amplitude)[0]
+            fresh_short = np.atleast_2d(proc([rec], mkst(kind, method)).amplitude)[0]
+            try:
+                small = np.atleast_2d(proc([rec], mkst(kind, method, fft={"n": 256})).amplitude)[0]
+            except Exception as e:
+                run.violation(f"fft-length:user-n-shorter-than-window:{label}", f"{label}: fft_settings n=256 on a {n}-sample window raised "
+                              f"{type(e).__name__}: {e} (the window must be zero padded to the next power of two)", dict(kind="generic", method=label, n=n, trial=t))
+                small = fresh_short
+            if not np.array_equal(small, fresh_short):
+                run.violation(f"fft-length:user-n-shorter-than-window:{label}", f"{label}: fft_settings n=256 on a {n}-sample window changes the curve "
+                              f"(the window must be zero padded, never truncated); max rel diff {np.max(np.abs(small-fresh_short)/fresh_short):.2e}",
+                              dict(kind="generic", method=label, n=n, trial=t))
+            reused = mkst(kind, method)
+            proc([rec], reused)
+            try:
+                second = np.atleast_2d(proc([long_rec], reused).amplitude)[0]
+            except Exception as e:
+                run.violation(f"fft-length:settings-reused-on-longer-window:{label}", f"{label}: reusing a settings object on a longer window raised {type(e).__name__}: {e}",
+                              dict(kind="generic", method=label, n=n, nlong=nlong, trial=t))
+                second = fresh_long
+            if not np.array_equal(second, fresh_long):
+                run.violation(f"fft-length:settings-reused-on-longer-window:{label}", f"{label}: a settings object used on a {n}-sample window and then on a "
+                              f"{nlong}-sample window gives a different curve than fresh settings (stored FFT length {reused.fft_settings.get('n')}); "
+                              f"max rel diff {np.max(np.abs(second-fresh_long)/fresh_long):.2e}", dict(kind="generic", method=label, n=n, nlong=nlong, trial=t))
+            if reused.fft_settings["n"] < nlong:
+                run.violation("ratio:truncated", f"stored FFT length {reused.fft_settings['n']} is shorter than the window ({nlong} samples)", dict(kind="generic", n=nlong))
+            run.case(("fftlen", t, label))
 
 
 if __name__ == "__main__":
